@@ -33,7 +33,19 @@ case "$cmd" in
   run)
     t="$1"; runs="${2:-200000}"; seed="${3:-${VERIF_SEED:-1}}"
     cd "$ROOT/fuzz"; mkdir -p "corpus/$t"
-    [ -d "seeds/$t" ] && cp -n seeds/$t/* "corpus/$t/" 2>/dev/null || true
+    # seed corpus: the committed regression replays of the same lane (raw case bytes)
+    python3 - "$ROOT" "$t" <<'PY' || true
+import json,glob,sys,os,re
+root,t=sys.argv[1:3]
+src=open(f"{root}/fuzz/fuzz_targets/{t}.rs").read()
+m=re.search(r'fuzz_one\("(C\d+)", "([^"]+)"',src)
+if m:
+    pid,lane=m.groups()
+    for f in glob.glob(f"{root}/replays/{pid}/*.json"):
+        v=json.load(open(f))
+        if v.get("lane")==lane and v.get("bytes_hex") is not None:
+            open(f"{root}/fuzz/corpus/{t}/seed-{os.path.basename(f)}","wb").write(bytes.fromhex(v["bytes_hex"]))
+PY
     VERIF_ROOT="$ROOT" RUSTFLAGS="--cfg metrics_verif" cargo +nightly fuzz run --fuzz-dir "$ROOT/fuzz" "$t" -- -runs="$runs" -seed="$seed" -len_control=0 -max_len=512 -print_final_stats=1
     ;;
   replayfile)
